@@ -92,6 +92,9 @@ NoRotationInsidePeriod(F, age, N, forced) ==
 \* a timestamp-named file carries the time at which its content was started
 TsNameIsStart(F, gran) ==
     \A j \in 1..Len(F) : (F[j].k = "ts" /\ ~F[j].z) => F[j].i = (F[j].bt \div gran) * gran
+\* the same when the name is rendered in a zone that lies `off` seconds west of the clock's zone (use_utc)
+TsNameIsStartOff(F, gran, off) ==
+    \A j \in 1..Len(F) : (F[j].k = "ts" /\ ~F[j].z) => F[j].i = ((F[j].bt - off) \div gran) * gran
 (***************************************************************************)
 (* C18: sequences of records <<id,len>>                                     *)
 (***************************************************************************)
